@@ -151,6 +151,8 @@ def binop(op, a, c):
             return FILEOFF, None
         if a == FILEOFF and c == BUFOFF:
             return FILEOFF, None       # file offset of the buffer start
+        if c == FILEOFF and a is None:
+            return None, None          # a quantity of unknown dimension (a parameter of a helper: `byte as i64 - self.position.byte as i64`)
         if c == FILEOFF:
             return 'CLASH', '%s - file offset' % a
         if a == BUFOFF and c == BUFOFF:
@@ -214,6 +216,9 @@ def run(prog, R):
                         c = U.unit_op(b, rv.ops[1])
                         u, err = binop(rv.j['op'], a, c)
                         ok = err is None and u == want and not (isinstance(u, str) and u.startswith('CLASH'))
+                        if err is None and u is None:
+                            # counters / constants of no known dimension (`n_skipped + 1`): nothing contradicts the rule - as for a plain copy
+                            ok = True
                         det = '%s = %s(<%s>, <%s>) = <%s>%s' % ('.'.join(names), rv.j['op'], a, c, u, (' : ' + err) if err else '')
                     else:
                         det = '%s assigned from %s' % ('.'.join(names), rv.k)
@@ -254,7 +259,12 @@ def run(prog, R):
             for ci, (cb_, ct) in enumerate(cons):
                 amount_roots = roots_of(b, ct.args[1], du)
                 # the offsets may be re-based before or after the buffer is moved (same activation of the function)
-                after = set(x for x in b.cfg.reachable if cb_ in b.cfg.reach_from(x, include_start=True)) | b.cfg.reach_from(cb_, include_start=False) | {cb_}
+                # ... up to the next refill: what is stored after new data arrived are offsets of a new search, not re-based ones
+                refill_blocks = set(x for x, t_ in b.calls() if t_.callee is not None and (
+                    t_.callee.is_('buffer_redux::BufReader::read_into_buf', 'std::io::BufRead::fill_buf') or
+                    (prog.local_callee_body(t_.callee) is not None and find_call(prog.local_callee_body(t_.callee), 'buffer_redux::BufReader::read_into_buf'))))
+                after = set(x for x in b.cfg.reachable if cb_ in b.cfg.reach_from(x, removed=refill_blocks - {x}, include_start=True)) | \
+                    b.cfg.reach_from(cb_, removed=refill_blocks, include_start=False) | {cb_}
                 written = {}
                 def self_path(pl):
                     """field path below self of a written place, also through `let bp = &mut self.buf_pos; bp.seq -= ..`"""
@@ -277,8 +287,16 @@ def run(prog, R):
                             if a_.is_const:
                                 continue
                             ty_ = b.local_tys[a_.place.local] if a_.place.is_local() else ''
-                            if ty_.startswith('&mut') or 'IterMut' in ty_:
-                                for r in roots_of(b, a_, du, through_calls=lambda c: 0 if c and (c.path in IDENTITY_CALLS or c.name in ('iter_mut', 'into_iter')) else None):
+                            if ty_.startswith('&mut') or 'IterMut' in ty_ or '&mut usize' in ty_:
+                                tc_ = lambda c: 0 if c and (c.path in IDENTITY_CALLS or c.name in ('iter_mut', 'into_iter')) else None
+                                rs_ = list(roots_of(b, a_, du, through_calls=tc_))
+                                # an array / tuple of references (`[seq, sep, qual].into_iter()`): the references it is built from
+                                for r in list(rs_):
+                                    if r[0] == 'agg':
+                                        for o_ in r[1].rv.ops:
+                                            if not o_.is_const:
+                                                rs_ += list(roots_of(b, o_, du, through_calls=tc_))
+                                for r in rs_:
                                     if r[0] == 'arg' and r[1] == 1:
                                         pth = tuple(q[1] for q in r[-1] if q[1] not in ('[]',))
                                         for o in OFFSETS[fmt]:
@@ -350,7 +368,14 @@ def run(prog, R):
             """`position.line = position.line + X` with the per-format X"""
             if not (st.rv.k == 'bin' and st.rv.j['op'].startswith('Add')):
                 return False
-            other = [o for o in st.rv.ops if o.is_const or [p['name'] for p in o.place.proj if p['k'] == 'field'] != ['position', 'line']]
+            def reads_line(o):
+                if o.is_const:
+                    return False
+                if [p['name'] for p in o.place.proj if p['k'] == 'field'] == ['position', 'line']:
+                    return True
+                rs_ = roots_of(body, o, U.du_of(body))
+                return bool(rs_) and all(r[0] == 'arg' and r[1] == 1 and tuple(q[1] for q in r[-1]) == ('position', 'line') for r in rs_)
+            other = [o for o in st.rv.ops if not reads_line(o)]
             if len(other) != 1:
                 return False
             o = other[0]
@@ -379,6 +404,18 @@ def run(prog, R):
                         if names == ('position', 'line') and line_update_ok(ab, st2) and equivalent(ab, blk.idx, bi):
                             partner = st2
                             paired_line_stmts.add(id(st2))
+                    if partner is None:
+                        # the new position built as a whole: `self.position = Position::new(self.position.line + 4, self.position.byte + extent)`
+                        for x_, t_ in ab.calls():
+                            cb_ = prog.local_callee_body(t_.callee)
+                            if cb_ is not None and cb_.key.endswith('::Position::new') and len(t_.args) == 2 and equivalent(ab, blk.idx, x_):
+                                lr = roots_of(ab, t_.args[0], U.du_of(ab))
+                                br = [r for r in roots_of(ab, t_.args[1], U.du_of(ab)) if r[0] == 'bin']
+                                if lr and all(r[0] == 'bin' and line_update_ok(ab, r[1]) for r in lr) and any(id(r[1]) == id(st) for r in br):
+                                    partner = t_
+                                    for (bi, st2, names) in writers.get(ap, []):
+                                        if names == ('position',) and st2.rv.k == 'use' and any(r[0] == 'call' and r[1] is t_ for r in roots_of(ab, st2.rv.ops[0], U.du_of(ab))):
+                                            paired_line_stmts.add(id(st2))
                     R.add('EPOS-6', ab, 'lines-advance-with-bytes#%d' % nadv, partner is not None, site(ab, st.line),
                           'the advance over a record (position.byte += extent) is %s by position.line += %s on the same paths' % (
                               'accompanied' if partner is not None else 'NOT accompanied', '4' if fmt == 'fastq' else 'number of line offsets'))
@@ -390,7 +427,10 @@ def run(prog, R):
                 if wb.key.endswith('::seek'):
                     okw = names == ('position',)
                     why = 'seek copies the target position'
-                elif (st.rv.k in ('use', 'cast') and names == ('position', 'line')) or names == ('position',):
+                elif (names == ('position', 'line') and (st.rv.k in ('use', 'cast') or (st.rv.k == 'bin' and not any(
+                        (not o.is_const) and any(r[0] == 'arg' and r[1] == 1 and tuple(q[1] for q in r[-1]) == ('position', 'line') for r in roots_of(wb, o))
+                        for o in st.rv.ops)))) or names == ('position',):
+                    # an assignment that does not read the counter itself (`= n`, `= n_skipped + 1`) is an initialisation, not an update
                     # (a whole `position = Position::new(line, byte)` at the first record counts as the same
                     # initialisation; what goes into its byte component is UNIT-1's business)
                     # initialisation at the first record: same function also sets the record start
@@ -519,9 +559,21 @@ def unit3b(prog, R):
                 if f in LINES and k == 'set':
                     recomputed.add(f)
         ok = shifted == valid[p] and not other and recomputed >= (LINES - valid[p]) and start_ok
+        # offsets that the compaction function borrows mutably (`for s in [seq, sep, qual].into_iter().take(n) { *s -= .. }`,
+        # a helper taking `&mut usize`): shifts made through such references are not visible to the interpreter
+        borrowed = set()
+        for blk_ in comp.blocks:
+            for s_ in blk_.stmts:
+                if s_.k == 'assign' and s_.rv.k == 'ref' and s_.rv.j.get('mut') and s_.rv.place is not None:
+                    names_ = [q['name'] for q in s_.rv.place.proj if q['k'] == 'field']
+                    if names_[:1] == ['buf_pos']:
+                        borrowed |= ((LINES | {'pos'}) if len(names_) == 1 else (set(names_[1:2]) & (LINES | {'pos'})))
+        hidden = (not ok) and bool(borrowed) and (valid[p] - shifted) <= borrowed and not other and not (shifted - valid[p]) and recomputed >= (LINES - valid[p]) and (start_ok or 'pos' in borrowed)
         R.add('UNIT-3b', comp, 'stage:%s' % p, ok, site(comp, comp.span['lo']),
-              'stopped in %s: valid %s; compaction shifts %s (record start := 0: %s); resumed search recomputes %s' % (
-                  p, sorted(valid[p]), sorted(shifted), start_ok, sorted(recomputed)))
+              'stopped in %s: valid %s; compaction shifts %s (record start := 0: %s); resumed search recomputes %s%s' % (
+                  p, sorted(valid[p]), sorted(shifted), start_ok, sorted(recomputed),
+                  '; %s are borrowed mutably in the compaction function (shifts through the references are not visible here): not judged' % sorted(borrowed) if hidden else ''),
+              undecided=hidden)
     # STAGE-1: when the resumed search is suspended again, the part it names is the one in which it
     # stopped: the offsets known at that point (valid at entry + assigned on the way) are exactly
     # the ones a fresh search knows when it stops in that part
@@ -543,6 +595,7 @@ def unit3b(prog, R):
             ns += 1
             R.add('STAGE-1', resum, 'entered:%s->suspended:%s' % (p0, q), ok, site(resum, resum.span['lo']),
                   'entered in %s, suspended again recording %s (returned %s) with offsets %s known; a fresh search stopping in %s knows %s' % (
-                      p0, q, ret_q, sorted(known), q, sorted(valid.get(q, ['?']))))
+                      p0, q, ret_q, sorted(known), q, sorted(valid.get(q, ['?']))),
+                  undecided=(not ok) and q not in rp)      # the recorded part is a computed value (a cursor of a loop): not judged
     R.floor('STAGE-1', 4)
     R.floor('UNIT-3b', 4)
